@@ -5,6 +5,8 @@ package main
 
 import (
 	"fmt"
+	"go/types"
+	"reflect"
 	"sort"
 	"strings"
 )
@@ -15,6 +17,7 @@ func propertyProviders(e *Engine, P string, tier string) []*Job {
 	if P == "C08" {
 		jobs = append(jobs, castJoinJobs(e)...)
 	}
+	jobs = append(jobs, tagRuleJobs(e, P)...)
 	if P == "C19" || P == "C02" {
 		jobs = append(jobs, globalFrameJobs(e, P)...)
 	}
@@ -132,4 +135,43 @@ func exclusivityJob(base string, keys []string, where string) *Job {
 		return b.String()
 	}
 	return &Job{O: o, Script: script}
+}
+
+// tagRuleJobs: structural lemma for the `rendered` rules of the contract files — the named struct field carries no
+// `omitempty` in its yaml and json tags (read from go/types on this run), so its zero value is always rendered.
+func tagRuleJobs(e *Engine, P string) []*Job {
+	var jobs []*Job
+	for _, tr := range e.Specs.TagRules {
+		if !hasProp(tr.Props, P) {
+			continue
+		}
+		name := fmt.Sprintf("%s/rendered[%s.%s.%s]", P, tr.Pkg, tr.Type, tr.Field)
+		var st *types.Struct
+		for _, p := range e.Pkgs {
+			if p.Name == tr.Pkg && p.Types != nil {
+				if o := p.Types.Scope().Lookup(tr.Type); o != nil {
+					st, _ = o.Type().Underlying().(*types.Struct)
+				}
+			}
+		}
+		if st == nil {
+			jobs = append(jobs, structJob(name, "tagrule", false, "type not found: stale rule", tr.Where))
+			continue
+		}
+		found := false
+		for i := 0; i < st.NumFields(); i++ {
+			if st.Field(i).Name() != tr.Field {
+				continue
+			}
+			found = true
+			tag := reflect.StructTag(st.Tag(i))
+			y, j := tag.Get("yaml"), tag.Get("json")
+			ok := !strings.Contains(y, "omitempty") && !strings.Contains(j, "omitempty") && !strings.HasPrefix(y, "-") && !strings.HasPrefix(j, "-")
+			jobs = append(jobs, structJob(name, "tagrule", ok, fmt.Sprintf("yaml:%q json:%q; rule: %s", y, j, tr.Why), tr.Where))
+		}
+		if !found {
+			jobs = append(jobs, structJob(name, "tagrule", false, "field not found: stale rule", tr.Where))
+		}
+	}
+	return jobs
 }
